@@ -3,8 +3,8 @@ import itertools
 from vlib.runner import Group, run_property
 
 SUM = ["deps.dev/util/semver.compare", "(deps.dev/util/semver.Set).matchVersion", "deps.dev/util/semver.canon$1"]
-NCONS = {0: 33, 4: 33, 1: 30, 2: 8}
-NVERS = {0: 4, 4: 4, 1: 4, 2: 4}
+NCONS = {0: 33, 4: 33, 1: 30, 2: 8}  # the templates after these indices are C11's
+NVERS = {0: 4, 4: 4, 1: 4, 2: 4}  # likewise
 QUICK = {0: [5, 6, 12, 24, 29], 4: [1, 7, 10, 24, 30], 1: [5, 9, 12, 26], 2: [0, 1, 5]}
 
 
